@@ -183,6 +183,9 @@ func runC10(w *World) {
 	// writers and publishers
 	nw := 2 + w.knob("writers", 2)
 	per := []int{8, 16, 30}[w.knob("per", 3)]
+	if w.deep() && w.knob("deep", 3) == 0 {
+		per = 60
+	}
 	var writers []*Actor
 	for i := 0; i < nw; i++ {
 		i := i
